@@ -115,6 +115,9 @@ pub enum ApplyError {
     Redacted,
     #[error("document does not contain any changes to current identity")]
     DocUnchanged,
+    /// The document stored with the revision is not the one that is proposed.
+    #[error("revision commit {0} does not carry the proposed document blob {1}")]
+    DocMismatch(EntryId, Oid),
     #[error("git: {0}")]
     Git(#[from] git2::Error),
     #[error("git: {0}")]
@@ -523,6 +526,12 @@ impl Identity {
 
                 let doc = repo.blob(blob)?;
                 let doc = Doc::from_blob(&doc)?;
+                // The document stored with the revision's commit is the one that is read
+                // back as the repository's identity once the revision is accepted, so it
+                // has to be the proposed, signed one. Same check as for the root revision.
+                if Oid::from(Doc::blob_at(entry, repo)?.id()) != blob {
+                    return Err(ApplyError::DocMismatch(entry, blob));
+                }
                 // All revisions but the first one must have a parent.
                 let Some(parent) = parent else {
                     return Err(ApplyError::MissingParent);
